@@ -716,8 +716,15 @@ class Frame:
                 return v[0][max(0, len(v[0]) - n):] if n else ""
             if name == "MID$":
                 p, n = intarg(v[1]), intarg(v[2])
-                if p is UNSPEC or n is UNSPEC or p < 1 or n < 0:
+                if p is UNSPEC or n is UNSPEC or p < 0 or n < 0:
                     return UNSPEC
+                if p == 0:
+                    # position 0 is outside the string: an error, or (lenient) the same as position 1 - run under both
+                    if past == "error":
+                        raise B09Error(UNSPEC, "MID$ position 0")
+                    if past != "clamp":
+                        return UNSPEC
+                    p = 1
                 if p - 1 + n > len(s(v[0])):
                     if past == "error":
                         raise B09Error(UNSPEC, "MID$ past the end of the string")
